@@ -3168,6 +3168,22 @@ impl CanonicalizeContext {
 				return OperatorTypes::POSTFIX;	// postfix
 			} else {
 				// either two operators in a row or right hand side not parsed so we don't really know what is right (same is true above)
+				// if the operator on the right can only start an operand (it is a left fence or a prefix operator and has no infix form),
+				// it will reduce to an operand, so this operator is in a prefix position
+				if !operand_on_left && next_node.is_some() {
+					let next_mo = get_possible_embellished_node(next_node.unwrap());
+					let mut next_op = OPERATORS.get(as_text(next_mo));
+					let mut has_prefix_form = false;
+					let mut has_infix_form = false;
+					while let Some(op_info) = next_op {
+						has_prefix_form |= op_info.is_prefix();
+						has_infix_form |= op_info.is_infix();
+						next_op = op_info.next.as_ref();
+					}
+					if has_prefix_form && !has_infix_form {
+						return OperatorTypes::PREFIX;
+					}
+				}
 				// since there is nothing good to return, assume right is an operand after parsing (thus infix case)
 				return OperatorTypes::INFIX;
 			}
